@@ -68,7 +68,7 @@ func exportProblem(b *built, f *Func) string {
 const (
 	callTimeout            = 10 * time.Second
 	minimiseTimeout        = 100 * time.Millisecond
-	minimiseNontermTimeout = 1 * time.Second
+	minimiseNontermTimeout = 500 * time.Millisecond
 	nontermStmtLimit       = 10000
 	mkNonterm              = "call-does-not-terminate"
 )
